@@ -289,7 +289,10 @@ ev_sendbuf(int n)
 	KNEED(!sock_closed);
 	if (kstop)
 		return;
-	CHECK(P(set_send_buf_len)(&sock, &v, sizeof(v), NNI_TYPE_INT32) == 0, "set SENDBUF");
+	KQ_SNAP(&sock.wmq);
+	nng_err brv = P(set_send_buf_len)(&sock, &v, sizeof(v), NNI_TYPE_INT32);
+	KQ_FAULT_RESULT(brv, &sock.wmq);
+	CHECK(brv == 0, "set SENDBUF");
 	for (int i = 0; i < MAXU; i++)
 		if (uaio_used[i] && ukind[i] == 1 && accepted[i] && !delivered[i] && !lost[i] && in_q(&sock.wmq, umsg_id[i]) == 0) {
 			int onwire = 0;
@@ -308,7 +311,10 @@ ev_recvbuf(int n)
 	KNEED(!sock_closed);
 	if (kstop)
 		return;
-	CHECK(P(set_recv_buf_len)(&sock, &v, sizeof(v), NNI_TYPE_INT32) == 0, "set RECVBUF");
+	KQ_SNAP(&sock.rmq);
+	nng_err brv = P(set_recv_buf_len)(&sock, &v, sizeof(v), NNI_TYPE_INT32);
+	KQ_FAULT_RESULT(brv, &sock.rmq);
+	CHECK(brv == 0, "set RECVBUF");
 	monitor();
 }
 static void
